@@ -40,7 +40,7 @@ MANDATORY = ["op:set-new", "op:set-replace", "op:reject", "op:del", "op:rename_d
              "start:constructed", "reject-after-accept", "replace-changes-dims", "axis-change-with-2-users", "reject:new-dim-first", "dims:permute-existing", "reject:truncated-labels"]
 
 NAMES = ["x", "y", "z", "w"]
-FRESH = ["p", "q", "r", "s", "u", "v", "g", "h"]
+FRESH = ["p", "q", "a", "s", "u", "b", "g", "h"]        # ("a", "b" are also variable keys: a key may equal the name of a dimension)
 SPARE = ["n%d" % i for i in range(40)]     # never exhausted within a program (at most 30 steps)
 VARS = ["a", "b", "c", "d"]
 LABPOOL = {"i": [3, 0, 2, 7, 5], "f": [0.5, 0.0, 1.5, 4.1], "s": ["k", "", "l", "n"]}      # (0, 0.0 and '' are labels like any other; 4.1 is not float32-safe)
